@@ -8,6 +8,7 @@ package main
 
 import (
 	"fmt"
+	"go/constant"
 	"go/token"
 	"go/types"
 	"sort"
@@ -98,6 +99,19 @@ func (o *oenum) paths(f *ssa.Function, st0 map[ssa.Value]string, depth int) []op
 		return nil
 	}
 	o.c.Analysed(f)
+	// phiVal: along the current path, the value a boolean φ stands for (the incoming edge's value, chased through
+	// earlier φs) — so that `return a < b || (a == b && c < d)` is decided like the if-chain it abbreviates
+	phiVal := map[ssa.Value]ssa.Value{}
+	resolve := func(v ssa.Value) ssa.Value {
+		for d := 0; d < 8; d++ {
+			nv, ok := phiVal[v]
+			if !ok {
+				break
+			}
+			v = nv
+		}
+		return v
+	}
 	var walk func(b *ssa.BasicBlock, idx int, pred *ssa.BasicBlock, st map[ssa.Value]string, conds []ocond, onPath map[*ssa.BasicBlock]bool)
 	walk = func(b *ssa.BasicBlock, idx int, pred *ssa.BasicBlock, st map[ssa.Value]string, conds []ocond, onPath map[*ssa.BasicBlock]bool) {
 		if o.err != nil {
@@ -129,6 +143,18 @@ func (o *oenum) paths(f *ssa.Function, st0 map[ssa.Value]string, depth int) []op
 				if pi >= 0 {
 					st = copySt(st)
 					st[phi] = o.term(phi.Edges[pi], st)
+					if isBoolType(phi.Type()) {
+						// path-local: restored when the walk returns to the branching point
+						old, had := phiVal[phi]
+						phiVal[phi] = phi.Edges[pi]
+						defer func() {
+							if had {
+								phiVal[phi] = old
+							} else {
+								delete(phiVal, phi)
+							}
+						}()
+					}
 				}
 			}
 		}
@@ -160,11 +186,11 @@ func (o *oenum) paths(f *ssa.Function, st0 map[ssa.Value]string, depth int) []op
 					return
 				}
 			case *ssa.If:
-				cond := x.Cond
+				cond := resolve(x.Cond)
 				truthFlip := false
 				for {
 					if u, ok := cond.(*ssa.UnOp); ok && u.Op == token.NOT {
-						cond = u.X
+						cond = resolve(u.X)
 						truthFlip = !truthFlip
 						continue
 					}
@@ -206,7 +232,28 @@ func (o *oenum) paths(f *ssa.Function, st0 map[ssa.Value]string, depth int) []op
 							ret = append(ret, "?err:"+o.c.Path(r, nil))
 						}
 					case isBoolType(r.Type()):
-						if bo, ok := r.(*ssa.BinOp); ok && isCmp(bo.Op) {
+						flip := false
+						rv := resolve(r)
+						for {
+							if u, ok := rv.(*ssa.UnOp); ok && u.Op == token.NOT {
+								rv = resolve(u.X)
+								flip = !flip
+								continue
+							}
+							break
+						}
+						if k, isK := rv.(*ssa.Const); isK && k.Value != nil && len(x.Results) == 1 {
+							b := constant.BoolVal(k.Value) != flip
+							out = append(out, opath{Conds: conds, Ret: []string{fmt.Sprint(b)}})
+							return
+						}
+						if bo, ok := rv.(*ssa.BinOp); ok && isCmp(bo.Op) && flip {
+							l, rr := o.term(bo.X, st), o.term(bo.Y, st)
+							out = append(out, opath{Conds: append(append([]ocond{}, conds...), ocond{l, rr, bo.Op, true}), Ret: []string{"false"}})
+							out = append(out, opath{Conds: append(append([]ocond{}, conds...), ocond{l, rr, bo.Op, false}), Ret: []string{"true"}})
+							return
+						}
+						if bo, ok := rv.(*ssa.BinOp); ok && isCmp(bo.Op) {
 							// `return a < b`: split into two paths
 							l, rr := o.term(bo.X, st), o.term(bo.Y, st)
 							out = append(out, opath{Conds: append(append([]ocond{}, conds...), ocond{l, rr, bo.Op, true}), Ret: []string{"true"}})
